@@ -1,3 +1,4 @@
+use std::borrow::Cow;
 use std::cell::RefCell;
 use std::collections::hash_map::Entry;
 use std::collections::{BTreeMap, BTreeSet, HashMap, HashSet};
@@ -180,14 +181,14 @@ impl<'de> Deserialize<'de> for OptionWrapper<Inventory> {
                                 duplicate_field(ID_FIELD, self.result);
                                 map.next_value::<Value>()?;
                             } else {
-                                match map.next_value::<&str>() {
+                                match map.next_value::<Cow<str>>() {
                                     Ok(value) => {
                                         if value.is_empty() {
                                             self.result.error(
                                                 ErrorCode::E037,
                                                 "Inventory 'id' must not be blank".to_string(),
                                             );
-                                        } else if URI::try_from(value).is_err() {
+                                        } else if URI::try_from(value.as_ref()).is_err() {
                                             self.result.warn(
                                                 WarnCode::W005,
                                                 format!(
@@ -231,8 +232,8 @@ impl<'de> Deserialize<'de> for OptionWrapper<Inventory> {
                                 duplicate_field(DIGEST_ALGORITHM_FIELD, self.result);
                                 map.next_value::<Value>()?;
                             } else {
-                                match map.next_value::<&str>() {
-                                    Ok(value) => match DigestAlgorithm::from_str(value) {
+                                match map.next_value::<Cow<str>>() {
+                                    Ok(value) => match DigestAlgorithm::from_str(&value) {
                                         Ok(algorithm) => {
                                             if algorithm != DigestAlgorithm::Sha512
                                                 && algorithm != DigestAlgorithm::Sha256
@@ -276,8 +277,8 @@ impl<'de> Deserialize<'de> for OptionWrapper<Inventory> {
                                 duplicate_field(HEAD_FIELD, self.result);
                                 map.next_value::<Value>()?;
                             } else {
-                                match map.next_value::<&str>() {
-                                    Ok(value) => match VersionNum::try_from(value) {
+                                match map.next_value::<Cow<str>>() {
+                                    Ok(value) => match VersionNum::try_from(value.as_ref()) {
                                         Ok(num) => head = Some(num),
                                         Err(_) => {
                                             self.result.error(
@@ -302,7 +303,7 @@ impl<'de> Deserialize<'de> for OptionWrapper<Inventory> {
                                 duplicate_field(CONTENT_DIRECTORY_FIELD, self.result);
                                 map.next_value::<Value>()?;
                             } else {
-                                match map.next_value::<&str>() {
+                                match map.next_value::<Cow<str>>() {
                                     Ok(value) => {
                                         if value.eq(".") || value.eq("..") {
                                             self.result.error(ErrorCode::E018,
@@ -568,9 +569,10 @@ impl<'de: 'b, 'a, 'b> DeserializeSeed<'de> for VersionsSeed<'a, 'b> {
                 let mut all_versions = BTreeSet::new();
 
                 loop {
-                    match map.next_key()? {
+                    match map.next_key::<Cow<str>>()? {
                         None => break,
                         Some(version_num) => {
+                            let version_num = version_num.as_ref();
                             let num = match VersionNum::try_from(version_num) {
                                 Ok(num) => {
                                     all_versions.insert(num);
@@ -738,8 +740,8 @@ impl<'de: 'b, 'a, 'b, 'c> DeserializeSeed<'de> for VersionSeed<'a, 'b, 'c> {
                                 duplicate_version_field(CREATED_FIELD, self.version, self.result);
                                 map.next_value::<Value>()?;
                             } else {
-                                match map.next_value::<&str>() {
-                                    Ok(value) => match DateTime::parse_from_rfc3339(value) {
+                                match map.next_value::<Cow<str>>() {
+                                    Ok(value) => match DateTime::parse_from_rfc3339(&value) {
                                         Ok(value) => created = Some(value.with_timezone(&Local)),
                                         Err(_) => {
                                             self.result.error(ErrorCode::E049,
@@ -875,7 +877,7 @@ impl<'de: 'b, 'a, 'b, 'c> DeserializeSeed<'de> for VersionSeed<'a, 'b, 'c> {
 
 struct ManifestResult<'a> {
     manifest: PathBiMap<ContentPath>,
-    digests: HashSet<&'a str>,
+    digests: HashSet<Cow<'a, str>>,
 }
 
 struct ManifestSeed<'a, 'b> {
@@ -914,8 +916,9 @@ impl<'de: 'b, 'a, 'b> DeserializeSeed<'de> for ManifestSeed<'a, 'b> {
                     match map.next_key()? {
                         None => break,
                         Some(digest) => {
-                            digests.insert(digest);
-                            match map.next_value::<Vec<&str>>() {
+                            let digest: Cow<str> = digest;
+                            digests.insert(digest.clone());
+                            match map.next_value::<Vec<Cow<str>>>() {
                                 Ok(paths) => {
                                     let mut content_paths = Vec::with_capacity(paths.len());
 
@@ -925,7 +928,7 @@ impl<'de: 'b, 'a, 'b> DeserializeSeed<'de> for ManifestSeed<'a, 'b> {
                                                               format!("Inventory manifest key '{}' contains a path with a leading/trailing '/'. Found: {}",
                                                                       digest, path));
                                         } else {
-                                            match ContentPath::try_from(path) {
+                                            match ContentPath::try_from(path.as_ref()) {
                                                 Ok(content_path) => {
                                                     content_paths.push(content_path)
                                                 }
@@ -937,7 +940,7 @@ impl<'de: 'b, 'a, 'b> DeserializeSeed<'de> for ManifestSeed<'a, 'b> {
                                             }
                                         }
 
-                                        if all_paths.contains(path) {
+                                        if all_paths.contains(&path) {
                                             self.result.error(ErrorCode::E101,
                                                           format!("Inventory manifest contains duplicate path '{}'",
                                                                   path));
@@ -948,7 +951,7 @@ impl<'de: 'b, 'a, 'b> DeserializeSeed<'de> for ManifestSeed<'a, 'b> {
 
                                     let path_refs: Vec<Rc<ContentPath>> =
                                         content_paths.into_iter().map(Rc::new).collect();
-                                    let digest_ref = self.data.insert_digest(digest);
+                                    let digest_ref = self.data.insert_digest(digest.clone());
 
                                     if manifest.contains_id(&digest_ref) {
                                         self.result.error(
@@ -972,7 +975,7 @@ impl<'de: 'b, 'a, 'b> DeserializeSeed<'de> for ManifestSeed<'a, 'b> {
                     }
                 }
 
-                validate_non_conflicting(&all_paths, |path, part| {
+                validate_non_conflicting(&all_paths.iter().map(|p| p.as_ref()).collect(), |path, part| {
                     self.result.error(
                         ErrorCode::E101,
                         format!("Inventory manifest contains a path, '{}', that conflicts with another path, '{}'",
@@ -1026,9 +1029,10 @@ impl<'de: 'b, 'a, 'b, 'c> DeserializeSeed<'de> for StateSeed<'a, 'b, 'c> {
                 loop {
                     match map.next_key()? {
                         None => break,
-                        Some(digest) => match map.next_value::<Vec<&str>>() {
+                        Some(digest) => match map.next_value::<Vec<Cow<str>>>() {
                             Ok(paths) => {
-                                let digest_ref = self.data.insert_digest(digest);
+                                let digest: Cow<str> = digest;
+                                let digest_ref = self.data.insert_digest(digest.clone());
                                 let mut path_refs = Vec::with_capacity(paths.len());
 
                                 for path in paths {
@@ -1041,7 +1045,7 @@ impl<'de: 'b, 'a, 'b, 'c> DeserializeSeed<'de> for StateSeed<'a, 'b, 'c> {
                                                               format!("In inventory version {}, state key '{}' contains a path with a leading/trailing '/'. Found: {}",
                                                                       self.version, digest, path));
                                     } else {
-                                        match self.data.insert_path::<A::Error>(path) {
+                                        match self.data.insert_path::<A::Error>(path.clone()) {
                                             Ok(logical_path) => path_refs.push(logical_path),
                                             Err(_) => {
                                                 self.result.error(ErrorCode::E052,
@@ -1051,7 +1055,7 @@ impl<'de: 'b, 'a, 'b, 'c> DeserializeSeed<'de> for StateSeed<'a, 'b, 'c> {
                                         }
                                     }
 
-                                    if all_paths.contains(path) {
+                                    if all_paths.contains(&path) {
                                         self.result.error(ErrorCode::E095,
                                                           format!("In inventory version {}, state contains duplicate path '{}'",
                                                                   self.version, path));
@@ -1072,7 +1076,7 @@ impl<'de: 'b, 'a, 'b, 'c> DeserializeSeed<'de> for StateSeed<'a, 'b, 'c> {
                     }
                 }
 
-                validate_non_conflicting(&all_paths, |path, part| {
+                validate_non_conflicting(&all_paths.iter().map(|p| p.as_ref()).collect(), |path, part| {
                     self.result.error(
                         ErrorCode::E095,
                         format!("In inventory version {}, state contains a path, '{}', that conflicts with another path, '{}'",
@@ -1209,9 +1213,9 @@ impl<'de, 'a, 'b> DeserializeSeed<'de> for UserSeed<'a, 'b> {
                                 duplicate_version_field(ADDRESS_FIELD, self.version, self.result);
                                 map.next_value::<Value>()?;
                             } else {
-                                match map.next_value::<&str>() {
+                                match map.next_value::<Cow<str>>() {
                                     Ok(value) => {
-                                        if URI::try_from(value).is_err() {
+                                        if URI::try_from(value.as_ref()).is_err() {
                                             self.result.warn(WarnCode::W009,
                                                               format!("Inventory version {} user 'address' should be a URI. Found: {}",
                                                                       self.version, value));
@@ -1272,8 +1276,8 @@ impl<'de, 'a, 'b> DeserializeSeed<'de> for UserSeed<'a, 'b> {
 
 #[derive(Debug)]
 struct DigestsAndPaths<'a> {
-    digests: HashMap<&'a str, Rc<HexDigest>>,
-    paths: HashMap<&'a str, Rc<LogicalPath>>,
+    digests: HashMap<Cow<'a, str>, Rc<HexDigest>>,
+    paths: HashMap<Cow<'a, str>, Rc<LogicalPath>>,
 }
 
 impl<'a> DigestsAndPaths<'a> {
@@ -1284,22 +1288,25 @@ impl<'a> DigestsAndPaths<'a> {
         }
     }
 
-    fn insert_digest(&mut self, digest: &'a str) -> Rc<HexDigest> {
-        self.digests
-            .entry(digest)
-            .or_insert_with(|| Rc::new(digest.into()))
-            .clone()
+    fn insert_digest(&mut self, digest: Cow<'a, str>) -> Rc<HexDigest> {
+        match self.digests.entry(digest) {
+            Entry::Occupied(entry) => entry.get().clone(),
+            Entry::Vacant(vacant) => {
+                let digest_rc = Rc::new(vacant.key().as_ref().into());
+                vacant.insert(digest_rc).clone()
+            }
+        }
     }
 
-    fn insert_path<E>(&mut self, path: &'a str) -> Result<Rc<LogicalPath>, E>
+    fn insert_path<E>(&mut self, path: Cow<'a, str>) -> Result<Rc<LogicalPath>, E>
     where
         E: SerdeError,
     {
         match self.paths.entry(path) {
             Entry::Occupied(entry) => Ok(entry.get().clone()),
             Entry::Vacant(vacant) => {
-                let path =
-                    LogicalPath::try_from(path).map_err(|e| SerdeError::custom(e.to_string()))?;
+                let path = LogicalPath::try_from(vacant.key().as_ref())
+                    .map_err(|e| SerdeError::custom(e.to_string()))?;
                 let path_rc = Rc::new(path);
                 let clone = path_rc.clone();
                 vacant.insert(path_rc);
